@@ -7,7 +7,9 @@ EXPLANATION = ("Static MIR rules deciding CONFORMANCE of src/histogram.rs to the
                "spins on a CAS of the cold count (success >= Acquire), drains only the cold shard, merges only into the hot shard, and releases the lock after the last shard "
                "event; index helpers are the 2-cycle / 0-1 maps; flip/drain/lock have no other callers; the bit layout of shard_and_count agrees between writer and reader; "
                "the snapshot is assembled from the drained values. That the protocol itself yields one consistent cut for all interleavings is a paper argument (DESIGN §4.C02), "
-               "not machine-checked: the check decides the shape and the ordering constants, which are necessary conditions invisible to any test on x86.")
+               "not machine-checked: the check decides the shape and the ordering constants, which are necessary conditions invisible to any test on x86. The content of a cut is "
+               "covered by shared rules: conservation across collections (C03.R1/R2), cumulative bucket totals (C08.R5), the bucket an observation is counted in, direct or "
+               "batched (C08.R4), and what a local histogram flushes (C12.L5).")
 ASSUMPTIONS = ["the hot/cold protocol P of DESIGN §4.C02 yields consistent cuts (paper argument)", "std atomics and Mutex behave as documented",
                "AtomicU64/AtomicF64 wrappers forward value and ordering unchanged (checked by C01.R2)"]
 
